@@ -74,6 +74,8 @@ type RefClient struct {
 	// ByGet lists the rids whose data the client last received through a get
 	// response (frame index), i.e. without any subscription.
 	ByGet map[string]int
+	// DataAt is the index of the last frame that carried data for a rid.
+	DataAt map[string]int
 	// EverRef lists the rids that some stored resource ever referenced (non-soft).
 	EverRef map[string]bool
 }
@@ -198,6 +200,15 @@ func (r *CRes) refs() []string {
 }
 
 func (c *RefClient) addResources(rs *resourceSet) {
+	if c.DataAt == nil {
+		c.DataAt = map[string]int{}
+	}
+	for rid := range rs.Models {
+		c.DataAt[rid] = c.nframes
+	}
+	for rid := range rs.Collections {
+		c.DataAt[rid] = c.nframes
+	}
 	for rid := range rs.Models {
 		delete(c.ByGet, rid)
 	}
